@@ -445,7 +445,8 @@ def run(ctx):
     import beanquery
     if beanquery.threadsafety != 2:
         ctx.notes.append(f'module advertises threadsafety {beanquery.threadsafety}')
-    ctx.count('obs.declared_threadsafety', beanquery.threadsafety)
+    if ctx.shard == 0:
+        ctx.count('obs.declared_threadsafety', beanquery.threadsafety)
     modes = ['shared', 'separate', 'different']
     work = [(pi, m) for pi in range(len(PAIRS)) for m in modes]
     for idx, (pi, m) in enumerate(work):
@@ -483,5 +484,7 @@ def finalize(merged):
     if c.get('obs.rows_with_interleaved_balance_evaluations', 0) == 0:
         reasons.append('no row in which two balance evaluations of one thread were separated by another thread\'s balance evaluation')
     merged['extra']['distinct_schedules'] = len(merged['digests'])
-    merged['extra']['exhaustive'] = c.get('obs.one_preemption_complete', 0) > 0
+    # exhaustive only when EVERY explored pair had all its one-pre-emption schedules enumerated (no stride cap)
+    merged['extra']['exhaustive'] = c.get('obs.pairs', 0) > 0 and c.get('obs.one_preemption_complete', 0) >= 2 * c.get('obs.pairs', 0)
+    merged['extra']['pairs_with_complete_one_preemption_enumeration'] = c.get('obs.one_preemption_complete', 0) // 2
     return reasons
